@@ -173,7 +173,11 @@ class SSHConfig:
                 # and they should be tried in order of specification.
                 if key in ["identityfile", "localforward", "remoteforward"]:
                     if key in context["config"]:
-                        context["config"][key].append(value)
+                        # like OpenSSH, don't register the same identity twice
+                        if key != "identityfile" or (
+                            value not in context["config"][key]
+                        ):
+                            context["config"][key].append(value)
                     else:
                         context["config"][key] = [value]
                 elif key not in context["config"]:
